@@ -106,6 +106,13 @@ CLAIMED = {
             "returns the input, passes through the old samples, complex = real + i imag with the same orders (orders 1,3,5). NOT claimed: "
             "polynomial exactness and the interp2d-based zoom (FITPACK / removed from SciPy)",
             "RectBivariateSpline is an uninterpreted interpolating function (contract stub); radii linspace(...)**1.9 evaluated in floating point."),
+    "C18": ("5 C18", "equivalent_layers on symbolic profiles (strictly increasing heights, positive strengths/winds; N<=5, L<=3 quick, N<=6, L<=4 thorough), "
+            "every path with non-empty slabs: exactly L layers, total Cn2, 5/3 height moment and 5/3 wind moment conserved, strengths >= 0; the slab-edge "
+            "kernel found in the source has exactly L edges (linspace by construction; numpy.arange((hmax-hmin)/L) decided in Float64 for every double "
+            "range); optimal_grouping with the random restart = ANY sorted distinct split set: exactly L layers (L=1 included), total Cn2, heights are "
+            "input heights in increasing order, cost no worse than the equal split (N=3 fully symbolic, N=4..6 irregular concrete heights with "
+            "symbolic strengths). NOT claimed: GCTM (scipy.optimize.minimize)",
+            "numba's _Gjit executed as its Python source; paths with an empty slab (0/0) not examined."),
     "C19": ("5 C19", "calculate_structure_function on symbolic phase: entry j = mean squared difference at lag j*step along axis 0, 0 at lag 0 "
             "(numpy.empty = arbitrary values), ramp -> a^2 (j step)^2, quadratic in amplitude (shapes to 8x8 quick / 12x12 thorough, steps 1-4); "
             "calc_slope_temporalps: mean spectrum = sub-aperture mean of |DFT along frames|^2, quadratic in amplitude, error = std/sqrt(n), "
